@@ -50,8 +50,11 @@ def q(ns, t):
     return "{%s}%s" % (ns, t)
 
 
-def ts(epoch):
+def ts(epoch, style=None):
     from simcore import wire
+    if style and style.startswith("frac:"):
+        # fractional seconds as other tools write them (.NET round-trip format: seven digits; nanoseconds: nine)
+        return wire.fmt_ts(epoch, "nozone") + style[5:] + "Z"
     return wire.fmt_ts(epoch)
 
 
@@ -70,7 +73,7 @@ def entity_attrs_of(e):
 def build_entity(e, now):
     ed = ET.Element(q(MD, "EntityDescriptor"), {"entityID": e["id"]})
     if e.get("valid_until") is not None:
-        ed.set("validUntil", ts(now + e["valid_until"]))
+        ed.set("validUntil", ts(now + e["valid_until"], e.get("vu_style")))
     if entity_attrs_of(e):
         ext = ET.SubElement(ed, q(MD, "Extensions"))
         ea = ET.SubElement(ext, q(MDATTR, "EntityAttributes"))
@@ -117,7 +120,7 @@ def build_document(doc, now, sign_key=None):
     else:
         root = ET.Element(q(MD, "EntitiesDescriptor"), {"Name": doc.get("name", "fed")})
         if doc.get("valid_until") is not None:
-            root.set("validUntil", ts(now + doc["valid_until"]))
+            root.set("validUntil", ts(now + doc["valid_until"], doc.get("vu_style")))
         for e in doc["entities"]:
             root.append(build_entity(e, now))
     if sign_key is not None:
@@ -735,6 +738,8 @@ def gen_entity(r, idx, dup_of=None):
             e["roles_b"][kind_]["protocols"] = roles[kind_]["protocols"]
     if r.chance(0.25):
         e["valid_until"] = r.pick([-86400, -2, -1, 0, 1, 2, 3600, 86400])
+        if r.chance(0.3):
+            e["vu_style"] = r.pick(["frac:.000", "frac:.0000000", "frac:.123456789", "frac:.5"])
     if r.chance(0.4):
         e["categories"] = r.sample(["http://refeds.org/category/research-and-scholarship",
                                     "http://www.geant.net/uri/dataprotection-code-of-conduct/v1",
@@ -778,6 +783,8 @@ def generate(seed, prop, tier):
             doc = {"wrapper": wrapper, "name": "fed%d" % step, "entities": ents if wrapper == "entities" else ents[:1]}
             if wrapper == "entities" and r.chance(0.3):
                 doc["valid_until"] = r.pick([-86400, -1, 0, 1, 3600])
+                if r.chance(0.3):
+                    doc["vu_style"] = r.pick(["frac:.000", "frac:.0000000", "frac:.123456789"])
             ev = {"k": "load", "src": sid, "type": typ, "doc": doc, "dt": r.pick([0, 1, 1.5, 30]), "sub": r.getrandbits(32)}
             if typ in ("file", "remote") and r.chance(0.3):
                 ev["via_imp"] = True
